@@ -234,6 +234,16 @@ def _block_cannot_raise(body: List[ast.stmt], allow: Set[str]) -> Tuple[bool, Op
                     return False, bad
                 continue
             return False, st
+        if isinstance(st, ast.For) and isinstance(st.iter, ast.Name) and not st.orelse:
+            ok2, bad = _block_cannot_raise(st.body, allow)
+            if not ok2:
+                return False, bad
+            continue
+        if isinstance(st, ast.AugAssign) and isinstance(st.target, ast.Name):
+            bad = _expr_cannot_raise(st.value, allow)
+            if bad is not None:
+                return False, bad
+            continue
         if isinstance(st, ast.If):
             bad = _expr_cannot_raise(st.test, allow)
             if bad is not None:
@@ -339,3 +349,78 @@ def all_stmts(fn_node: ast.AST) -> Iterator[ast.stmt]:
     for x in walk_no_defs(fn_node):
         if isinstance(x, ast.stmt) and x is not fn_node:
             yield x
+
+
+# ------------------------------------------------------------ implied atoms
+def implied_atoms(ctx, fn: Func, node: Node, depth: int = 4) -> List[Tuple[ast.AST, bool, Node]]:
+    """Atomic conditions known at `node`, as (expression, truth, node where the
+    expression is evaluated).  Dominating branch tests are decomposed through
+    not/and/or, names are followed through their unique plain assignment,
+    bool()/_truthy() wrappers are removed and comparisons with True/False/None
+    constants are folded into the polarity.  A disjunction known to be true (or
+    a conjunction known to be false) implies nothing about its operands and is
+    emitted only as a whole."""
+    cfg = ctx.cfg(fn)
+    rd = ctx.rd(fn)
+    out: List[Tuple[ast.AST, bool, Node]] = []
+    seen = set()
+    work: List[Tuple[ast.AST, bool, Node, int]] = []
+    for test, pol, b in cfg.guards(node):
+        cn = b.pred[0][0] if b.pred else b
+        work.append((test, pol, cn, depth))
+    while work:
+        e, pol, at, d = work.pop()
+        k = (id(e), pol, at.id)
+        if k in seen:
+            continue
+        seen.add(k)
+        if isinstance(e, ast.UnaryOp) and isinstance(e.op, ast.Not):
+            work.append((e.operand, not pol, at, d))
+            continue
+        if isinstance(e, ast.BoolOp):
+            if (isinstance(e.op, ast.And) and pol) or (isinstance(e.op, ast.Or) and not pol):
+                for v in e.values:
+                    work.append((v, pol, at, d))
+                continue
+            out.append((e, pol, at))
+            continue
+        if isinstance(e, ast.Call) and dotted(e.func) in ("bool", "_truthy", "core._truthy") and len(e.args) == 1 and not e.keywords:
+            work.append((e.args[0], pol, at, d))
+            out.append((e, pol, at))
+            continue
+        if isinstance(e, ast.Compare) and len(e.ops) == 1 and isinstance(e.comparators[0], ast.Constant) \
+                and (e.comparators[0].value is True or e.comparators[0].value is False or e.comparators[0].value is None):
+            c = e.comparators[0].value
+            op = e.ops[0]
+            if c is None:
+                out.append((e, pol, at))
+                continue
+            same = isinstance(op, (ast.Eq, ast.Is))
+            diff = isinstance(op, (ast.NotEq, ast.IsNot))
+            if same or diff:
+                p2 = pol if (bool(c) == same) else (not pol)
+                work.append((e.left, p2, at, d))
+                continue
+        if isinstance(e, ast.Name) and d > 0:
+            uv = rd.unique_value(e.id, at)
+            out.append((e, pol, at))
+            if uv is not None:
+                work.append((uv[0], pol, uv[1], d - 1))
+            continue
+        out.append((e, pol, at))
+    return out
+
+
+def gate_on(ctx, fn: Func, node: Node, pe, gate_atom: str) -> bool:
+    """True when some condition known to be *true* at `node` is a read of the
+    gate atom (e.g. 'cfg:t4.enabled')."""
+    for e, pol, at in implied_atoms(ctx, fn, node):
+        if not pol:
+            continue
+        if isinstance(e, ast.BoolOp):
+            continue
+        if gate_atom in pe.atoms(fn, e, at):
+            # a leaf that merely mixes the gate with other data (x or gate) was
+            # already excluded; an IfExp/default wrapper around the read is fine
+            return True
+    return False
